@@ -47,3 +47,10 @@ REG["C29"] = dict(
                   "Go crypto/x509 with SSL_CERT_FILE pointing at a throw-away CA"],
     assumes=["configured HelloIDs are pairwise distinct (NoDup premise)", "the shuffle yields some permutation (premise; observed)"],
 )
+
+# Properties added later live in lib/reg/Cxx.py, one file each, defining ENTRY = dict(...).
+import glob as _glob, importlib.util as _ilu, os as _os
+for _f in sorted(_glob.glob(_os.path.join(_os.path.dirname(_os.path.abspath(__file__)), "reg", "C*.py"))):
+    _spec = _ilu.spec_from_file_location("reg_" + _os.path.basename(_f)[:-3], _f)
+    _m = _ilu.module_from_spec(_spec); _spec.loader.exec_module(_m)
+    REG[_os.path.basename(_f)[:-3]] = _m.ENTRY
